@@ -1,7 +1,7 @@
-CONSTANTS NodeId = 5  HbInit = 0  Walk = FALSE  WalkLen = 0  EvCap = 3
+CONSTANTS NodeId = 5  HbInit = 0  Walk = FALSE  WalkLen = 0  EvCap = 3  PoolN = 16
 CONSTANT Letters <- L11  HcInit <- HC11  ProbeLetters <- P11
 INIT Init
 NEXT Next
 VIEW View
 CONSTRAINT Bound
-INVARIANTS InvC09 InvC10 InvC11
+INVARIANTS InvC09 InvC10 InvC11 InvC20
